@@ -777,6 +777,20 @@ func rangeLoopsOver(fn *ssa.Function, pred func(collDesc string) bool) []*Loop {
 			if l := findLoop(b); l != nil {
 				seen[b] = true
 				out = append(out, l)
+			} else if bo, isCmp := ins.(*ssa.BinOp); isCmp {
+				// a rotated loop (`for i := range n`): the comparison sits in the latch, the header is the successor it
+				// jumps back to
+				if iff, isIf := b.Instrs[len(b.Instrs)-1].(*ssa.If); isIf && iff.Cond == ssa.Value(bo) {
+					for _, sc := range b.Succs {
+						if sc.Dominates(b) && !seen[sc] {
+							if l := findLoop(sc); l != nil {
+								seen[sc] = true
+								seen[b] = true
+								out = append(out, l)
+							}
+						}
+					}
+				}
 			}
 		}
 	}
